@@ -280,11 +280,14 @@ CONC_PROGS = {
 }
 CONC_PROGS["C12"] = {
     "quick": {"dfs": [[["once"], ["once"]], [["once", "any"], ["once", "any"]], [["once"], ["once"], ["once"]]],
-              "free": [[["once"], ["once"], ["once"], ["once"]]], "free_runs": 300, "mc": [("T2", "P2once"), ("T3", "P3mix")]},
+              "free": [[["once"], ["once"], ["once"], ["once"]]], "free_runs": 300, "mc": [("T2", "P2once"), ("T3", "P3mix")],
+              "tuple_dfs": [[["once"], ["once"]], [["once"], ["once"], ["once"]]], "tuple_free": [[["once"], ["once"], ["once"], ["once"]]]},
     "thorough": {"dfs": [[["once"], ["once"]], [["once", "any"], ["once", "any"]], [["once"], ["once"], ["once"]], [["once"], ["once"], ["once"], ["once"]],
                          [["once", "ord"], ["any", "once"], ["once"]]],
                  "random": [[["once", "any"], ["any", "once"], ["once"], ["once", "ord"]]], "runs": 3000,
                  "free": [[["once"], ["once"], ["once"], ["once"], ["once"], ["once"], ["once"], ["once"]]], "free_runs": 5000,
+                 "tuple_dfs": [[["once"], ["once"]], [["once"], ["once"], ["once"]], [["once", "any"], ["any", "once"]], [["once"], ["once"], ["once"], ["once"]]],
+                 "tuple_free": [[["once"], ["once"], ["once"], ["once"], ["once"], ["once"], ["once"], ["once"]]],
                  "mc": [("T2", "P2once"), ("T3", "P3mix"), ("T2", "P23")]}}
 CONC_PROGS["C08"] = {
     "quick": {"dfs": [[["unm"], ["unm", "any"]], [["ord", "ord"], ["ord", "unm"]], [["once"], ["once", "unm"]]],
@@ -509,15 +512,22 @@ def run_conc(pid, tier, t0, rule, assumptions, plan_key=None):
     cov["sensitivity"] = {"CounterImpl=load_store": rs["violated"]}
     # 2. the code: executions under the controlled scheduler / free running, validated against ConcTrace.tla
     all_rej = []
-    for (build, mode) in conc_passes(tier):
+    passes = [(b, m, None) for (b, m) in conc_passes(tier)]
+    if plan.get("tuple_dfs"):
+        # the single-use response as a composite with two owned leaves in separate slots: "handed to exactly one caller" all the same
+        passes += [("std", "tuple_dfs", "tuple"), ("std", "tuple_free", "tuple")]
+    for (build, mode_key, once_shape) in passes:
+        mode = mode_key.split("_")[-1]
         vh = vf.VH if build == "std" else vf.VH_NOSTD
-        progs = plan.get(mode)
+        progs = plan.get(mode_key)
         if not progs:
             continue
-        d = os.path.join(vf.WORK, "conc_%s_%s%s" % (pid.lower(), mode, "" if build == "std" else "_nostd"))
+        d = os.path.join(vf.WORK, "conc_%s_%s%s" % (pid.lower(), mode_key, "" if build == "std" else "_nostd"))
         os.makedirs(d, exist_ok=True)
         spec = {"mode": mode, "programs": progs, "max_schedules": 60000 if tier == "thorough" else 6000,
                 "runs": plan.get("free_runs" if mode == "free" else "runs", 200), "seed": vf.seed()}
+        if once_shape:
+            spec["once_shape"] = once_shape
         json.dump(spec, open(os.path.join(d, "spec.json"), "w"))
         tr = os.path.join(d, "trace.ndjson")
         p = subprocess.run([vh, "conc", os.path.join(d, "spec.json"), tr, os.path.join(d, "summary.json")], cwd=vf.VERIF, stderr=subprocess.DEVNULL, timeout=3000)
@@ -526,12 +536,12 @@ def run_conc(pid, tier, t0, rule, assumptions, plan_key=None):
         summ = json.load(open(os.path.join(d, "summary.json")))
         if mode in ("dfs", "random") and (not summ.get("hook_installed") or not summ.get("yield_points_hit")):
             raise ToolError("the scheduler saw no yield point: the hooks (cfg unimock_verif) are missing from the tree the harness was built against")
-        n_events, rej, st = validate_all(tr, "ctrace_%s_%s%s" % (pid.lower(), mode, "" if build == "std" else "_nostd"))
+        n_events, rej, st = validate_all(tr, "ctrace_%s_%s%s" % (pid.lower(), mode_key, "" if build == "std" else "_nostd"))
         cov["states"] += st; cov["transitions"] += st
         cov["traces_validated_against_impl"] += summ["executions"]
         cov["evaluations"] += summ["executions"]
         cov["distinct_nontrivial"] += summ["executions"] if mode == "dfs" else 0
-        cov["instances"].append({"name": "scheduler/" + mode, "unimock_build": build, "executions": summ["executions"], "events": n_events, "yield_points_hit": summ["yield_points_hit"],
+        cov["instances"].append({"name": "scheduler/" + mode_key, "unimock_build": build, "executions": summ["executions"], "events": n_events, "yield_points_hit": summ["yield_points_hit"],
                                  "programs": summ["programs"], "rejected": len(rej), "trace_spec_states": st})
         for r in rej:
             r["mode"] = mode + ("" if build == "std" else " (no_std + spin-lock build)")
